@@ -1850,6 +1850,37 @@ def kva_reference_pass_file(ctx, pw, salt, P, cs, rs="-"):
     return magic + salt + body.result["out"]
 
 
+def r2_c02_boundary_cases(ctx, full, first=True):
+    """password-mode round trips of plaintexts that end EXACTLY on a chunk boundary (65536; thorough: also 131072), delivered
+    by one full read (slice / regular file: the single chunk is full AND final), by an explicit full read, and split just
+    before / just after the boundary; each file decrypted from a slice and from short reads.  first=True: the one-read
+    shape only (the cases that are also compared with the model); first=False: the other shapes (direct oracle only)"""
+    rng = ctx.rng
+    shapes = [(BIG, "-")] if first else [(BIG, "c65536"), (BIG, "c65535,c1"), (BIG, "c1,c65535"), (BIG, "c32768,c32768")]
+    if full and not first:
+        shapes += [(2 * BIG, "-"), (2 * BIG, "c65536,c65536"), (2 * BIG, "c65536,c65535,c1"), (2 * BIG, "c1,c65536,c65535")]
+    elif not first:
+        shapes = rng.sample(shapes, 2)
+    encs = []
+    for n, rs in shapes:
+        P = ctx.rbytes(n)
+        pw = rng.choice(PASSWORDS[:5])
+        encs.append((P, Case("pass_enc", pw=pw, salt=ctx.rbytes(32), data=P, rs=rs,
+                             oracle=ok_only("password encryption of a %d-byte plaintext read as %s succeeds" % (n, rs)),
+                             tags=["enc", "len=%d" % n, "chunk-boundary"])))
+    vlib.run_impl(ctx.bin, [c for _, c in encs])
+    out = []
+    for P, c in encs:
+        out.append(c)
+        if c.result["code"] != 0:
+            continue
+        for rs in (["-"] if first else ["-", rng.choice(["c36,c16,c65552", "c100,c31,c1,c50000", "c1,c1,c1,c1,c1"])]):
+            out.append(Case("pass_dec", pw=c.a["pw"], data=c.result["out"], rs=rs,
+                            oracle=ok_eq(P, "password round trip of a %d-byte plaintext (encryptor's reads: %s; decryptor's: %s)"
+                                         % (len(P), c.a["rs"], rs)), tags=["dec", "len=%d" % len(P), "chunk-boundary"]))
+    return out
+
+
 class C02(KvaRefKdf, Prop):
     id = "C02"
     rule = ("cases: password-mode encryptions (7 passwords incl. empty, non-ASCII, >64 bytes; random salts; lengths "
@@ -1865,7 +1896,10 @@ class C02(KvaRefKdf, Prop):
             "passwords (quoted, blanks/CR/LF/TAB/BOM added or trimmed, NFC/NFD/NFKC, case, escapes, truncations, ..): exit 1, "
             "nothing released; input/output NAME families in one directory with bystander files (same stem other extension, "
             "output = input + suffix and back, hidden, blanks, non-ASCII, leading dash, other directory) with whole-directory "
-            "snapshots; non-trivial = all")
+            "snapshots; files literally named `-`, `--`, `-o` (as input, -o value and decrypted file, with and without `--`, "
+            "stdin the null device or a pipe with unrelated bytes); in-process: plaintexts of exactly 65536 (131072) bytes from one "
+            "full read (the single chunk is full and final), from an explicit full read and split just before / after the boundary; "
+            "non-trivial = all")
     assumptions = ["scrypt at N=32768 is not evaluated in Coq: the model takes the derived key from a table filled with "
                    "the RFC 7914 reference value (OpenSSL's scrypt through hashlib, the reference of C18; the "
                    "implementation's own scrypt only if no reference is available)",
@@ -1908,10 +1942,14 @@ class C02(KvaRefKdf, Prop):
                             tags=["digest-of-long-password"]))
         out = out + roundtrip_chunk_cases(ctx, False)[:120]
         # password LENGTH / content families and special salts; close-but-different passwords must be refused
-        return out + kva_password_family_cases(ctx, ctx.thorough())
+        out = out + kva_password_family_cases(ctx, ctx.thorough())
+        # a plaintext of exactly one chunk from ONE full read: the first chunk is both full and final
+        return out + r2_c02_boundary_cases(ctx, ctx.thorough(), first=True)
 
     def explore(self, ctx):
         super().explore(ctx)
+        # the other exact-boundary shapes (split before / after the boundary, two chunks): direct oracle only
+        self.run_cases(ctx, r2_c02_boundary_cases(ctx, ctx.thorough(), first=False), model=False)
         # the command-line half (`kestrel password encrypt|decrypt --env-pass`, tools/props_lib_cli.py)
         props_lib_cli.c02_cli_part(self, ctx)
 
@@ -2022,6 +2060,159 @@ def kva_reference_pass_cases(ctx, full):
     return out
 
 
+# --- r2: a reference WRITER in Python that shares no code with the implementation under test (RFC 8439 / 7748 / 5869 / 2104
+# from the c19_* transcriptions below, SHA-256 and scrypt from OpenSSL through hashlib), for the "reference-produced files
+# with arbitrary legal chunkings" and "Noise_X" halves of C06.  The files of kva_reference_pass_file are sealed by the
+# implementation's own chunk loop and so follow any change of it that is applied to both directions.
+def r2_ref_chunk_stream(key, aad, pieces):
+    """docs/file-format.txt: per chunk 8-byte BE counter, 4-byte BE last-chunk flag, 4-byte BE length, then the AEAD of the
+    piece under nonce = 4 zero bytes || LE64 counter with AD = aad || flag || length.  pieces: the plaintext of each chunk
+    (1..65536 bytes each, the last one is the final chunk; [] = the empty plaintext = one empty final chunk)"""
+    pieces = list(pieces) or [b""]
+    out = b""
+    for i, p in enumerate(pieces):
+        meta = (1 if i == len(pieces) - 1 else 0).to_bytes(4, "big") + len(p).to_bytes(4, "big")
+        out += i.to_bytes(8, "big") + meta + c19_seal(key, c19_noise_nonce(i), aad + meta, p)
+    return out
+
+
+def r2_ref_noise_x(s, spk, rpk, e, epk, prologue, payload):
+    """Noise rev 34, pattern X (<- s ... -> e, es, s, ss), 25519 / ChaChaPoly / SHA256: (message, handshake hash)"""
+    import hashlib
+    sha = lambda m: hashlib.sha256(m).digest()   # noqa: E731
+    h = NOISE_NAME + bytes(32 - len(NOISE_NAME))     # 31 bytes <= HASHLEN: padded, not hashed
+    ck = h
+    h = sha(h + prologue)                            # MixHash(prologue) — also for an empty prologue
+    h = sha(h + rpk)                                 # pre-message: responder's static key
+    h = sha(h + epk)                                 # e
+    o = c19_hkdf(ck, c19_x25519(e, rpk), b"", 64)    # es
+    ck, k = o[:32], o[32:]
+    c1 = c19_seal(k, c19_noise_nonce(0), h, spk)     # s
+    h = sha(h + c1)
+    o = c19_hkdf(ck, c19_x25519(s, rpk), b"", 64)    # ss
+    ck, k = o[:32], o[32:]
+    c2 = c19_seal(k, c19_noise_nonce(0), h, payload)
+    return epk + c1 + c2, sha(h + c2)
+
+
+def r2_ref_key_file(s, spk, rpk, e, epk, payload, pieces):
+    msg, hh = r2_ref_noise_x(s, spk, rpk, e, epk, PROLOGUE_KEY, payload)
+    return PROLOGUE_KEY + msg + r2_ref_chunk_stream(c19_hkdf(b"", payload, hh, 32), b"", pieces)
+
+
+def r2_ref_pass_file(pw, salt, pieces):
+    key = kva_ref_kdf(pw, salt)
+    if key is None:
+        return None
+    magic = bytes([0x65, 0x67, 0x6b, 0x20])
+    return magic + salt + r2_ref_chunk_stream(key, magic, pieces)
+
+
+def r2_pieces(P, parts):
+    out, i = [], 0
+    for k in parts:
+        out.append(P[i:i + k])
+        i += k
+    assert i == len(P)
+    return out
+
+
+def r2_c06_reference_cases(ctx, full):
+    """(1) WRITER side: the implementation encrypts (chunk hook at small sizes, key mode, password mode) from sources whose
+    reads are short before the end, so that the files have short NON-FINAL chunks: the bytes must be those of the Python
+    reference writer (and of the Gallina model).  (2) READER side: reference-written files in chunkings the encryptor never
+    emits (short chunks in the middle, one-byte chunks, a full chunk after a short one) must decrypt to plaintext and
+    sender.  (3) Noise X through the exported noise_encrypt / noise_decrypt with prologues of every kind — EMPTY, one
+    byte, the two file magics, lengths around the SHA-256 block (23, 24, 32, 64), random: message and handshake hash equal
+    the reference's, and the reference's messages are accepted with the reference's payload, sender and handshake hash."""
+    rng = ctx.rng
+    out = []
+
+    def equals(F, what):
+        def f(res):
+            if res["code"] != 0 or res["out"] != F:
+                return ("the encryptor's output equals the reference writer's %d bytes (%s)" % (len(F), what),
+                        res["outcome"] + " |out|=%d, first difference at byte %d" % (len(res["out"]), props_lib_cli.s2_first_diff(res["out"], F)))
+            return None
+        return f
+
+    def decrypts(P, sender, what):
+        def f(res):
+            if res["code"] != 0 or res["out"] != P:
+                return ("a conforming file decrypts to its plaintext (%s)" % what, res["outcome"] + " |out|=%d" % len(res["out"]))
+            if sender is not None and res["extra"] != sender:
+                return ("and names its sender (%s)" % what, "sender=" + res["extra"].hex())
+            return None
+        return f
+    (s, spk), (r, rpk), (e, epk) = keypairs(ctx, 3)
+    DEC_RS = ["-", "c1,c1,c1,c1,c1,c1", "c16,c1,c7", "c100", "c36,c16,c3"]
+    # (1) + (2) chunk hook, small chunk sizes
+    for cs in ((2, 3, 5, 16) if full else (3, rng.choice([2, 5, 16]))):
+        for _ in range(4 if full else 2):
+            key, aad = ctx.rbytes(32), rng.choice([b"", b"egk\x20", ctx.rbytes(rng.randrange(1, 9))])
+            n = rng.randrange(cs + 1, 4 * cs + 2)
+            P = ctx.rbytes(n)
+            parts = r2_short_partition(rng, n, cs)
+            F = r2_ref_chunk_stream(key, aad, r2_pieces(P, parts))
+            what = "chunk size %d, %d bytes read as %s" % (cs, n, "/".join(map(str, parts)))
+            out.append(Case("enc_chunks", key=key, aad=aad, cs=cs, data=P, rs=script_of(parts), oracle=equals(F, what),
+                            tags=["reference-bytes", "short-non-final-chunk", "op=enc_chunks"]))
+            out.append(Case("dec_chunks", key=key, aad=aad, cs=cs, data=F, rs=rng.choice(DEC_RS),
+                            oracle=decrypts(P, None, "reference-written chunk stream, " + what),
+                            tags=["reference-file", "short-non-final-chunk", "op=dec_chunks"]))
+    # production chunk size, both file modes
+    for mode in ("key", "pass"):
+        for i in range(3 if full else 2):
+            n = rng.randrange(2, 200)
+            P = ctx.rbytes(n)
+            parts = r2_short_partition(rng, n, 65536, pieces=rng.choice([2, 3, 4]) if n >= 4 else None)
+            what = "%s mode, %d bytes read as %s" % (mode, n, "/".join(map(str, parts)))
+            if mode == "key":
+                pk = ctx.rbytes(32)
+                F = r2_ref_key_file(s, spk, rpk, e, epk, pk, r2_pieces(P, parts))
+                out.append(Case("key_enc", s=s, spk=spk, r=rpk, e=e, epk=epk, pk=pk, data=P, rs=script_of(parts),
+                                oracle=equals(F, what), tags=["reference-bytes", "short-non-final-chunk", "op=key_enc"]))
+                out.append(Case("key_dec", r=r, rpk=rpk, data=F, rs=rng.choice(DEC_RS), oracle=decrypts(P, spk, "reference-written file, " + what),
+                                tags=["reference-file", "short-non-final-chunk", "op=key_dec"]))
+            else:
+                pw, salt = kva_password(ctx, rng.choice([0, 6, 20, 70])), ctx.rbytes(32)
+                F = r2_ref_pass_file(pw, salt, r2_pieces(P, parts))
+                if F is None:
+                    continue
+                out.append(Case("pass_enc", pw=pw, salt=salt, data=P, rs=script_of(parts),
+                                oracle=equals(F, what), tags=["reference-bytes", "short-non-final-chunk", "op=pass_enc"]))
+                out.append(Case("pass_dec", pw=pw, data=F, rs=rng.choice(DEC_RS), oracle=decrypts(P, None, "reference-written file, " + what),
+                                tags=["reference-file", "short-non-final-chunk", "op=pass_dec"]))
+    # (3) Noise X with every kind of prologue
+    pros = [b"", b"", bytes([rng.randrange(256)]), PROLOGUE_KEY, bytes([0x65, 0x67, 0x6b, 0x20]), b"Prologue123",
+            ctx.rbytes(23), ctx.rbytes(24), ctx.rbytes(32), ctx.rbytes(64), ctx.rbytes(rng.randrange(2, 200)), bytes(rng.randrange(1, 40))]
+    if not full:
+        pros = pros[:2] + rng.sample(pros[2:], 4)
+    for pro in pros:
+        pk = ctx.rbytes(32)
+        msg, hh = r2_ref_noise_x(s, spk, rpk, e, epk, pro, pk)
+        what = "prologue of %d bytes %s" % (len(pro), pro[:12].hex())
+
+        def enc_orc(res, msg=msg, hh=hh, what=what):
+            if res["code"] != 0 or res["out"] != msg:
+                return ("noise_encrypt writes the Noise_X_25519_ChaChaPoly_SHA256 message (%s)" % what,
+                        res["outcome"] + " first difference at byte %d of %d" % (props_lib_cli.s2_first_diff(res["out"], msg), len(msg)))
+            if res["extra"] != hh:
+                return ("and reports the Noise handshake hash (%s)" % what, "hh=" + res["extra"].hex())
+            return None
+
+        def dec_orc(res, pk=pk, hh=hh, what=what):
+            if res["code"] != 0 or res["out"] != pk:
+                return ("noise_decrypt accepts a conforming Noise X message and returns its payload (%s)" % what, res["outcome"])
+            if res["extra"] != hh + spk:
+                return ("with the handshake hash and the sender's static key (%s)" % what, "hh+sender=" + res["extra"].hex())
+            return None
+        tg = ["noise", "prologue=%s" % ("empty" if not pro else "file" if pro == PROLOGUE_KEY else "other")]
+        out.append(Case("noise_enc", s=s, spk=spk, r=rpk, e=e, epk=epk, prologue=pro, payload=pk, oracle=enc_orc, tags=tg + ["reference-bytes"]))
+        out.append(Case("noise_dec", r=r, rpk=rpk, prologue=pro, msg=msg, oracle=dec_orc, tags=tg + ["reference-file"]))
+    return out
+
+
 class C06(KvaRefKdf, Prop):
     id = "C06"
     model_is_reference = True
@@ -2032,7 +2223,14 @@ class C06(KvaRefKdf, Prop):
             "content styles and special salts, with the model's scrypt value taken from the RFC 7914 reference; "
             "reference-written password files in chunkings the encryptor never emits; key files with related keys "
             "(sender == recipient, ephemeral == static, special payload keys); frozen files incl. long passwords, "
-            "special salts and self-addressed key files; non-trivial = all")
+            "special salts and self-addressed key files; an independent Python reference writer (OpenSSL SHA-256/scrypt, RFC 8439/"
+            "7748/5869 transcriptions): encryptions from sources with short reads (files with short NON-FINAL chunks; chunk hook, "
+            "key and password mode) equal its bytes, its files in chunkings the encryptor never emits decrypt to plaintext and "
+            "sender; noise_encrypt/noise_decrypt with EMPTY, one-byte, 23/24/32/64-byte and random prologues against its Noise X "
+            "message, handshake hash, payload and sender; across entry points: files written by the real `kestrel password encrypt` "
+            "under ASCII / Latin-1-range / U+0100.. / other-script / astral / random passwords equal the reference writer's bytes "
+            "for the password's UTF-8 bytes and the file's salt, decrypt in the library and the model, and reference-written files "
+            "(short non-final chunks) are opened by `kestrel password decrypt`; non-trivial = all")
     assumptions = ["the Gallina RFC specifications are validated by the RFCs' own test vectors (Spec/*Kat.v)",
                    "scrypt at N=32768 is not evaluated in Coq: the model's value is OpenSSL's (hashlib.scrypt), the "
                    "reference C18 names"]
@@ -2058,7 +2256,20 @@ class C06(KvaRefKdf, Prop):
         out += kva_password_family_cases(ctx, ctx.thorough(), others=False, n_lens=6)
         out += kva_reference_pass_cases(ctx, ctx.thorough())
         out += kva_key_relation_cases(ctx, ctx.thorough())
+        # an independent Python reference writer: short non-final chunks on both sides, Noise X with empty / odd prologues
+        out += r2_c06_reference_cases(ctx, ctx.thorough())
         return out
+
+    def explore(self, ctx):
+        super().explore(ctx)
+        # cross-entry-point conformance: command-line-written files against the reference writer, the library and the
+        # model; reference-written files into the command line (tools/props_lib_cli.py)
+        props_lib_cli.r2_c06_cli_part(self, ctx)
+
+    def replay(self, ctx, payload):
+        if payload.get("input", {}).get("kind") == "proc":
+            return props_lib_cli.s2_replay(ctx, payload)
+        return super().replay(ctx, payload)
 
 
 class C09(Prop):
@@ -2405,6 +2616,180 @@ def t2_panic_observation_cases(ctx):
     return out
 
 
+def r2_short_partition(rng, n, cs, pieces=None):
+    """a partition of n into reads of 1..cs bytes in which at least one read that is NOT the last is shorter than cs
+    (needs n >= 2): the encryptor turns every read into one chunk, so the file has a short non-final chunk"""
+    for _ in range(200):
+        parts, left = [], n
+        while left > 0:
+            k = rng.randrange(1, min(cs, left) + 1)
+            parts.append(k)
+            left -= k
+        if pieces and len(parts) != pieces:
+            continue
+        if len(parts) >= 2 and any(k < cs for k in parts[:-1]):
+            return parts
+    return [1] + ([n - 1] if n - 1 <= cs else r2_short_partition(rng, n - 1, cs))
+
+
+def r2_c10_schedule_cases(ctx):
+    """the FIRST sentence of C10, with direct oracles on fault-free runs: "the same result over any conforming source and
+    sink".  Encryptions (chunk hook at small chunk sizes, key mode and password mode at the production size) of plaintexts
+    whose read partition has short non-final chunks are repeated over sinks that accept k bytes per call for every
+    k in 1..40 and over sinks that accept k in 0..40 bytes at exactly ONE call (every call position, so also the call that
+    starts a record): the bytes must be those of the all-accepting sink (k = 0: a write error, a prefix, no panic).  The
+    files (short non-final chunks) are decrypted over sources that return 1, 2, 3, 7, 15, 16, 17, 31, 32, 33, 100, .. bytes
+    per call, as much as the buffer holds (slice) and random sizes, and over capped sinks: always the plaintext.  Finally a
+    failure of EVERY read call (also the last, end-of-input one) of these runs, unsampled."""
+    rng = ctx.rng
+    full = ctx.thorough()
+    key = ctx.rbytes(32)
+    (s, spk), (r, rpk), (e, epk) = keypairs(ctx, 3)
+    encs = []
+    for cs in ((3, 4, 5, 16) if full else (3, rng.choice([4, 5]))):
+        n = rng.randrange(cs + 2, 3 * cs + 2)
+        encs.append(Case("enc_chunks", key=key, aad=rng.choice([b"", b"egk\x20"]), cs=cs, data=ctx.rbytes(n),
+                         rs=script_of(r2_short_partition(rng, n, cs))))
+    for mode in ("key", "pass"):
+        for _ in range(2 if full else 1):
+            n = rng.randrange(30, 140)
+            rs = script_of(r2_short_partition(rng, n, 65536, pieces=rng.choice([2, 3, 4])))
+            if mode == "key":
+                encs.append(Case("key_enc", s=s, spk=spk, r=rpk, e=e, epk=epk, pk=ctx.rbytes(32), data=ctx.rbytes(n), rs=rs))
+            else:
+                encs.append(Case("pass_enc", pw=b"pw", salt=ctx.rbytes(32), data=ctx.rbytes(n), rs=rs))
+    vlib.run_impl(ctx.bin, encs)
+    out = []
+
+    def rep(k, total, calls):
+        return ",".join(["c%d" % k] * (total // max(1, k) + 2 * calls + 6))
+
+    def same(F, what):
+        def f(res):
+            if res["code"] == 1 or res["code"] >= 900:
+                return ("a conforming source/sink never causes a panic (%s)" % what, res["outcome"])
+            if res["code"] != 0 or res["out"] != F:
+                return ("the same result as over an all-at-once source/sink (%s): Ok and the same %d bytes" % (what, len(F)),
+                        res["outcome"] + " |out|=%d, first difference at %d" % (len(res["out"]), props_lib_cli.s2_first_diff(res["out"], F)))
+            return None
+        return f
+
+    def plain(P, spk_, what):
+        def f(res):
+            if res["code"] == 1 or res["code"] >= 900:
+                return ("a conforming source/sink never causes a panic (%s)" % what, res["outcome"])
+            if res["code"] != 0 or res["out"] != P:
+                return ("decryption gives the plaintext over every conforming source/sink (%s)" % what,
+                        res["outcome"] + " |out|=%d" % len(res["out"]))
+            if spk_ is not None and res["extra"] != spk_:
+                return ("and the sender (%s)" % what, "sender=" + res["extra"].hex())
+            return None
+        return f
+
+    def read_fault(F, kind, what, enc_side):
+        def f(res):
+            if res["code"] == 1 or res["code"] >= 900:
+                return ("a failing read is reported as an error value, never a panic (%s)" % what, res["outcome"])
+            if not F.startswith(res["out"]):
+                return ("what was written before the failing read is a prefix of the fault-free output (%s)" % what,
+                        "|out|=%d, first difference at %d: %s" % (len(res["out"]), props_lib_cli.s2_first_diff(res["out"], F),
+                                                                 res["out"][-48:].hex()))
+            if res["code"] == 0:
+                if not (kind == "i" and res["out"] == F):
+                    return ("success only after a retried interruption with everything written (%s)" % what, "ok |out|=%d" % len(res["out"]))
+            elif kind != "i" and res["code"] not in (range(20, 30) if enc_side else range(60, 70)):
+                return ("the error identifies the read side (%s)" % what, res["outcome"])
+            return None
+        return f
+
+    for b in encs:
+        b.tags = ["fault-free", "trivial", "short-non-final-chunk"]
+        b.expect_fn = ok_only("encryption over a source with short reads succeeds")
+        out.append(b)
+        if b.result["code"] != 0:
+            continue
+        F, P = b.result["out"], b.a["data"]
+        hook = b.op == "enc_chunks"
+        wcalls = [t for t in b.result["trace"] if t[0] == 3]
+        nreads = len([t for t in b.result["trace"] if t[0] in (1, 2)])
+        # --- sinks with a per-call quota
+        ks = list(range(1, 41)) if (full or hook) else sorted(set([1, 15, 16, 17] + rng.sample(range(2, 41), 5)))
+        for k in ks:
+            a = dict(b.a)
+            a["ws"] = rep(k, len(F), len(wcalls))
+            out.append(Case(b.op, oracle=same(F, "%s, every write accepts at most %d bytes" % (b.op, k)), tags=["sink-quota"], **a))
+        # --- exactly one call accepts only k bytes, at every call position
+        for j, t in enumerate(wcalls):
+            top = min(40, t[1] - 1)
+            kk = list(range(0, top + 1))
+            if not full and hook:
+                kk = sorted(set([0, 1, min(15, top), top] + rng.sample(kk, min(len(kk), 3))))
+            elif not full:
+                kk = sorted(set([0, rng.randrange(1, min(15, top) + 1), top]))
+            for k in kk:
+                a = dict(b.a)
+                a["ws"] = ",".join(["c70000"] * j + ["c%d" % k])
+                what = "%s, write call #%d (of %d bytes) accepts %d" % (b.op, j, t[1], k)
+                if k == 0:
+                    def orc0(res, F=F, what=what):
+                        if res["code"] == 1 or res["code"] >= 900:
+                            return ("a write that accepts nothing is an error value, never a panic (%s)" % what, res["outcome"])
+                        if res["code"] not in range(30, 40) or not F.startswith(res["out"]):
+                            return ("a write error, and the bytes written are a prefix of the fault-free output (%s)" % what,
+                                    res["outcome"] + " |out|=%d" % len(res["out"]))
+                        return None
+                    out.append(Case(b.op, oracle=orc0, tags=["sink-one-short-call", "accepts=0"], **a))
+                else:
+                    out.append(Case(b.op, oracle=same(F, what), tags=["sink-one-short-call"], **a))
+        # --- every read call fails once (also the final, end-of-input read)
+        items = b.a["rs"].split(",")
+        for j in range(nreads):
+            for kind in ("i", "o", "u"):
+                it = list(items)
+                while len(it) < j:
+                    it.append("c70000")
+                a = dict(b.a)
+                a["rs"] = ",".join(it[:j] + [kind] + it[j:])
+                what = "%s, read call #%d of %d fails (%s)" % (b.op, j, nreads, kind)
+                out.append(Case(b.op, oracle=read_fault(F, kind, what, True), tags=["read-fault-every-index", "read-" + kind]
+                                + (["final-read"] if j == nreads - 1 else []), **a))
+        # --- decryption of the file (short non-final chunks) over many sources / sinks
+        dop = {"enc_chunks": "dec_chunks", "key_enc": "key_dec", "pass_enc": "pass_dec"}[b.op]
+        if hook:
+            da = dict(key=b.a["key"], aad=b.a["aad"], cs=b.a["cs"], data=F)
+        elif b.op == "key_enc":
+            da = dict(r=r, rpk=rpk, data=F)
+        else:
+            da = dict(pw=b.a["pw"], data=F)
+        sp = spk if b.op == "key_enc" else None
+        base = Case(dop, **da)
+        vlib.run_impl(ctx.bin, [base])
+        base.tags = ["fault-free", "source-slice", "short-non-final-chunk"]
+        base.expect_fn = plain(P, sp, "%s, the source fills every request" % dop)
+        out.append(base)
+        dreads = len([t for t in base.result["trace"] if t[0] in (1, 2)])
+        rks = [1, 2, 3, 5, 7, 15, 16, 17, 18, 19, 20, 31, 32, 33, 48, 100]
+        if not (full or hook):
+            rks = sorted(set([1, 7, 16, 100] + rng.sample(rks, 3)))
+        for k in rks:
+            out.append(Case(dop, rs=rep(k, len(F), dreads), oracle=plain(P, sp, "%s, every read returns at most %d bytes" % (dop, k)),
+                            tags=["source-quota"], **da))
+        for _ in range(6 if full else 2):
+            sizes = [rng.choice([1, 2, 3, 16, 17, rng.randrange(1, 60), 70000]) for _ in range(len(F) + 8)]
+            out.append(Case(dop, rs=script_of(sizes), ws=rng.choice(["-", rep(rng.randrange(1, 9), len(P), 4)]),
+                            oracle=plain(P, sp, "%s, random read sizes" % dop), tags=["source-random"], **da))
+        for k in ([1, 2, 3, 7] if full else [rng.choice([1, 2, 3, 7])]):
+            out.append(Case(dop, ws=rep(k, len(P), 8), oracle=plain(P, sp, "%s, every write accepts at most %d bytes" % (dop, k)),
+                            tags=["sink-quota"], **da))
+        if base.result["code"] == 0 and (full or hook):
+            for j in range(dreads):
+                for kind in ("i", "o"):
+                    rsj = ",".join(["c70000"] * j + [kind])
+                    what = "%s, read call #%d of %d fails (%s)" % (dop, j, dreads, kind)
+                    out.append(Case(dop, rs=rsj, oracle=read_fault(P, kind, what, False), tags=["read-fault-every-index", "read-" + kind], **da))
+    return out
+
+
 class C10(Prop):
     id = "C10"
     rule = ("cases: for base runs (both directions, chunk hooks at cs 2..3 with assorted partitions, and both file modes "
@@ -2417,6 +2802,12 @@ class C10(Prop):
             "random tail does not fit; control: fits exactly), -o a directory / in a missing directory, input a directory: "
             "exit 1 with an Error line naming the failing side whenever the complete output did not arrive, never a crash, "
             "file content a prefix of the fault-free output; "
+            "fault-free PARTIAL schedules with direct oracles: encryptions whose read partition has short non-final chunks (chunk "
+            "hooks, key and password mode at 65536) over sinks accepting k bytes per call for every k in 1..40 and over sinks "
+            "where exactly one call (every position, so also the start of a record) accepts k in 0..40 bytes: same bytes as the "
+            "all-accepting sink; the resulting files decrypted over sources returning 1,2,3,5,7,15..20,31..33,48,100 bytes per "
+            "call, whole-buffer (slice) and random sizes: always the plaintext; every read call of these runs (also the final "
+            "end-of-input read) failing once, unsampled; "
             "non-trivial = runs containing at least one fault")
     assumptions = ["std::io::Read::read_exact / Write::write_all default loops are transcribed in IO.v"]
 
@@ -2491,6 +2882,9 @@ class C10(Prop):
                     return None
                 out.append(Case(b.op, oracle=orc, tags=[tag.split("@")[0]], **a))
         out += t2_panic_observation_cases(ctx)
+        # fault-free partial schedules with direct oracles (sinks accepting k bytes for every k, one short call at every
+        # position, sources of every read size on files with short non-final chunks), every read index failing once
+        out += r2_c10_schedule_cases(ctx)
         return out
 
     def explore(self, ctx):
